@@ -115,7 +115,9 @@ var consensusRoles = []spectypes.BeaconRole{spectypes.BNRoleAttester, spectypes.
 	spectypes.BNRoleSyncCommittee, spectypes.BNRoleSyncCommitteeContribution}
 var allRoles = append(append([]spectypes.BeaconRole{}, consensusRoles...), spectypes.BNRoleValidatorRegistration, spectypes.BNRoleVoluntaryExit)
 
-func (u *universe) goodVals() []*valInfo { return []*valInfo{u.vals[0], u.vals[1], u.vals[2], u.vals[3], u.vals[7], u.vals[8]} }
+func (u *universe) goodVals() []*valInfo {
+	return []*valInfo{u.vals[0], u.vals[1], u.vals[2], u.vals[3], u.vals[7], u.vals[8]}
+}
 
 func newScene(u *universe, r *hx.Rand) *scene {
 	sc := &scene{u: u, r: r}
@@ -423,9 +425,17 @@ var mutations = []mutation{
 		binary.LittleEndian.PutUint64(in.data[256:264], claimed)
 		d.p2pData, d.p2pSet = in.data, true
 	}},
-	{"short-envelope", "any", func(sc *scene, d *draft) { toEra(sc, d, true); d.p2pData, d.p2pSet = bytes.Repeat([]byte{1}, 263), true }},
+	{"short-envelope", "any", func(sc *scene, d *draft) {
+		toEra(sc, d, true)
+		d.p2pData, d.p2pSet = bytes.Repeat([]byte{1}, 263), true
+	}},
 	{"empty-pubsub", "any", func(sc *scene, d *draft) { d.p2p = true; d.p2pData, d.p2pSet = nil, true }},
-	{"garbage-pubsub", "any", func(sc *scene, d *draft) { d.p2p = true; d.signed = false; toEra(sc, d, false); d.p2pData, d.p2pSet = sc.r.Bytes(80), true }},
+	{"garbage-pubsub", "any", func(sc *scene, d *draft) {
+		d.p2p = true
+		d.signed = false
+		toEra(sc, d, false)
+		d.p2pData, d.p2pSet = sc.r.Bytes(80), true
+	}},
 	// consensus fields
 	{"round-0", "cons", func(sc *scene, d *draft) { d.cons.Message.Round = 0 }},
 	{"round-too-high", "cons", func(sc *scene, d *draft) {
